@@ -71,6 +71,7 @@ type avObj struct {
 	id    int
 	label string // non-empty: domain-managed symbolic object (loads of absent paths are delegated to the domain)
 	typ   types.Type
+	of    AV // label "elems": the symbolic slice whose elements live here; a made slice: its length
 }
 
 func avKey(v AV) string {
@@ -152,6 +153,7 @@ type State struct {
 	heap  map[*avObj]map[string]AV
 	ints  map[int]*intFact
 	memo  map[string]bool
+	named map[string]int // ids given on this path to identity-less symbols (uninterpreted applications), for integer facts
 	Conds []Cond
 	Trace []Event
 }
@@ -182,12 +184,36 @@ func (s *State) clone() *State {
 	for k, v := range s.memo {
 		n.memo[k] = v
 	}
+	if len(s.named) > 0 {
+		n.named = make(map[string]int, len(s.named))
+		for k, v := range s.named {
+			n.named[k] = v
+		}
+	}
 	n.Conds = s.Conds[:len(s.Conds):len(s.Conds)]
 	n.Trace = s.Trace[:len(s.Trace):len(s.Trace)]
 	return n
 }
 
 func (s *State) event(ev Event) { s.Trace = append(s.Trace, ev) }
+
+// idOf is the key under which integer facts about sy are kept: its identity, or for an uninterpreted application
+// (len(x), elem(x,i)) one negative id per distinct application.
+func (s *State) idOf(sy avSym) int {
+	if sy.id != 0 {
+		return sy.id
+	}
+	k := avKey(sy)
+	if id, ok := s.named[k]; ok {
+		return id
+	}
+	if s.named == nil {
+		s.named = map[string]int{}
+	}
+	id := -(len(s.named) + 1)
+	s.named[k] = id
+	return id
+}
 
 func (s *State) fact(id int) *intFact {
 	f := s.ints[id]
@@ -208,8 +234,19 @@ func (s *State) KnownInt(v AV) (int64, bool) {
 			}
 		}
 	case avSym:
-		if f := s.ints[v.id]; f != nil && f.lo == f.hi {
+		if f := s.ints[s.idOf(v)]; f != nil && f.lo == f.hi {
 			return f.lo, true
+		}
+	case avBin:
+		if v.op == token.ADD || v.op == token.SUB {
+			if a, ok := s.KnownInt(v.x); ok {
+				if b, ok := s.KnownInt(v.y); ok {
+					if v.op == token.ADD {
+						return a + b, true
+					}
+					return a - b, true
+				}
+			}
 		}
 	}
 	return 0, false
@@ -218,7 +255,7 @@ func (s *State) KnownInt(v AV) (int64, bool) {
 // Excluded reports the constants an integer symbol is known to differ from on this path.
 func (s *State) Excluded(v AV) map[int64]bool {
 	if sy, ok := v.(avSym); ok {
-		if f := s.ints[sy.id]; f != nil {
+		if f := s.ints[s.idOf(sy)]; f != nil {
 			return f.neq
 		}
 	}
@@ -245,7 +282,7 @@ func (s *State) assume(cond AV, truth bool, pos token.Pos) bool {
 		if sy, ok := x.(avSym); ok {
 			if k, ok := y.(avConst); ok && k.v.Kind() == constant.Int {
 				if cv, exact := constant.Int64Val(k.v); exact {
-					if !s.assumeInt(sy.id, op, cv) {
+					if !s.assumeInt(s.idOf(sy), op, cv) {
 						return false
 					}
 					s.Conds = append(s.Conds, Cond{cond, truth, pos})
@@ -502,6 +539,16 @@ type Engine struct {
 	Aborted   string
 	nextID    int
 	globals   map[*ssa.Global]*avObj
+	// SymSlices: a slice the interpreter knows only as a symbol has elements: indexing it gives a pointer into an
+	// object (one per symbol) whose loads the domain answers.
+	SymSlices bool
+	symObjs   map[string]*avObj
+	// TraceConv: integer conversions are recorded as "conv" events (operand, position).
+	TraceConv bool
+	// Entered, when non-nil, collects the functions whose bodies were interpreted.
+	Entered map[*ssa.Function]bool
+	// Stop, when set, is asked at every block entry whether the path is still of interest.
+	Stop func(st *State) bool
 	// Unmodelled counts instructions whose result was left unknown, by kind (evidence).
 	Unmodelled map[string]int
 }
@@ -546,6 +593,9 @@ func (e *Engine) call(fn *ssa.Function, args []AV, free []AV, st *State, depth i
 	if len(fn.Blocks) == 0 {
 		return nil
 	}
+	if e.Entered != nil {
+		e.Entered[fn] = true
+	}
 	fr := &frame{fn: fn, env: map[ssa.Value]AV{}, visits: map[*ssa.BasicBlock]int{}, free: free, depth: depth}
 	for i, p := range fn.Params {
 		if i < len(args) {
@@ -559,6 +609,9 @@ func (e *Engine) call(fn *ssa.Function, args []AV, free []AV, st *State, depth i
 
 func (e *Engine) block(fr *frame, b, prev *ssa.BasicBlock, st *State, outs *[]Outcome) {
 	if e.Aborted != "" {
+		return
+	}
+	if e.Stop != nil && e.Stop(st) {
 		return
 	}
 	// phis are evaluated simultaneously on entry
@@ -645,6 +698,119 @@ func isStructOrArray(t types.Type) bool {
 		return true
 	}
 	return false
+}
+
+// sliceBase: x is base[lo:...] with a known lo.
+func (e *Engine) sliceBase(st *State, x avSym) (avSym, int64, bool) {
+	if x.tag != "slice" {
+		return x, 0, true
+	}
+	t, ok := x.payload.(avTuple)
+	if !ok || len(t) != 3 {
+		return x, 0, false
+	}
+	base, ok := t[0].(avSym)
+	if !ok {
+		return x, 0, false
+	}
+	lo, ok := st.KnownInt(t[1])
+	if !ok {
+		return x, 0, false
+	}
+	b2, off, ok := e.sliceBase(st, base)
+	if !ok {
+		return x, 0, false
+	}
+	return b2, off + lo, true
+}
+
+// lenOf: the length of a symbolic slice or string, as a term over the lengths of the values it was cut from.
+func (e *Engine) lenOf(st *State, x avSym) AV {
+	if x.tag == "slice" && e.SymSlices {
+		if t, ok := x.payload.(avTuple); ok && len(t) == 3 {
+			if lo, ok := st.KnownInt(t[1]); ok {
+				hi := t[2]
+				if hs, ok := hi.(avSym); ok && hs.tag == "len" && hs.id == 0 {
+					if inner, ok := hs.payload.(avSym); ok {
+						hi = e.lenOf(st, inner)
+					}
+				}
+				if lo == 0 {
+					return hi
+				}
+				if k, ok := st.KnownInt(hi); ok {
+					return avConst{constant.MakeInt64(k - lo)}
+				}
+				if hb, ok := hi.(avBin); ok && hb.op == token.SUB {
+					if c, ok := st.KnownInt(hb.y); ok {
+						return avBin{token.SUB, hb.x, avConst{constant.MakeInt64(c + lo)}}
+					}
+				}
+				return avBin{token.SUB, hi, avConst{constant.MakeInt64(lo)}}
+			}
+		}
+	}
+	l := avSym{tag: "len", payload: x}
+	st.assumeInt(st.idOf(l), token.GEQ, 0)
+	return l
+}
+
+func (e *Engine) knownLen(st *State, v AV) (int, bool) {
+	switch x := v.(type) {
+	case avSlice:
+		return x.n, x.n >= 0
+	case avNil:
+		return 0, true
+	case avSym:
+		if k, ok := st.KnownInt(e.lenOf(st, x)); ok && k >= 0 && k <= 64 {
+			return int(k), true
+		}
+	case avConst:
+		if x.v.Kind() == constant.String {
+			return len(constant.StringVal(x.v)), true
+		}
+	}
+	return 0, false
+}
+
+// elemAt: element i of a slice value on this path.
+func (e *Engine) elemAt(st *State, v AV, i int) AV {
+	switch x := v.(type) {
+	case avSlice:
+		if ev, ok := st.load(avPtr{x.o, fmt.Sprintf("%s[%d]", x.path, i)}); ok {
+			return ev
+		}
+		if ev, ok := st.load(avPtr{x.o, x.path + "[*]"}); ok {
+			return ev
+		}
+		return avNil{}
+	case avSym:
+		if base, off, ok := e.sliceBase(st, x); ok {
+			p := avPtr{e.elemsOf(base), fmt.Sprintf("[%d]", off+int64(i))}
+			if ev, ok := st.load(p); ok {
+				return ev
+			}
+			if e.D != nil {
+				return e.D.Load(e, st, p, nil)
+			}
+		}
+	}
+	return avSym{id: e.fresh(), tag: "elem?"}
+}
+
+// elemsOf returns the object holding the elements of a symbolic slice.
+func (e *Engine) elemsOf(x avSym) *avObj {
+	k := avKey(x)
+	if o := e.symObjs[k]; o != nil {
+		return o
+	}
+	if e.symObjs == nil {
+		e.symObjs = map[string]*avObj{}
+	}
+	o := e.NewObj("elems", nil)
+	o.of = x
+	e.symObjs[k] = o
+	return o
 }
 
 func (e *Engine) globalObj(g *ssa.Global) *avObj {
@@ -883,10 +1049,35 @@ func (e *Engine) builtin(st *State, name string, args []AV, c *ssa.CallCommon) A
 				return sy
 			}
 		}
-		if _, isSym := args[0].(avSym); isSym {
-			return avSym{tag: "len", payload: args[0]}
+		if sy, isSym := args[0].(avSym); isSym {
+			return e.lenOf(st, sy)
 		}
 		return avSym{id: e.fresh(), tag: "len", payload: args[0]}
+	case "copy":
+		if !e.SymSlices {
+			break
+		}
+		if dst, ok := args[0].(avSlice); ok {
+			n := -1
+			if sl, ok := e.knownLen(st, args[1]); ok && dst.n >= 0 {
+				n = min(dst.n, sl)
+			}
+			if n >= 0 {
+				for i := 0; i < n; i++ {
+					st.store(avPtr{dst.o, fmt.Sprintf("%s[%d]", dst.path, i)}, e.elemAt(st, args[1], i))
+				}
+				return avConst{constant.MakeInt64(int64(n))}
+			}
+			// an unknown number of elements was overwritten
+			for k := range st.heap[dst.o] {
+				if strings.HasPrefix(k, dst.path+"[") {
+					delete(st.heap[dst.o], k)
+				}
+			}
+			st.store(avPtr{dst.o, dst.path + "[*]"}, avSym{id: e.fresh(), tag: "copied"})
+			return avSym{id: e.fresh(), tag: "copy-n"}
+		}
+		return avSym{id: e.fresh(), tag: "copy-n"}
 	case "append":
 		base, _ := args[0].(avSlice)
 		var elems []AV
@@ -969,6 +1160,15 @@ func (e *Engine) eval(fr *frame, st *State, in ssa.Value) AV {
 			return avPtr{x.o, x.path + idx}
 		case avSlice:
 			return avPtr{x.o, x.path + idx}
+		case avSym:
+			if e.SymSlices {
+				if c, ok := st.KnownInt(e.val(fr, st, in.Index)); ok {
+					if base, off, ok := e.sliceBase(st, x); ok {
+						return avPtr{e.elemsOf(base), fmt.Sprintf("[%d]", off+c)}
+					}
+				}
+				return avPtr{e.elemsOf(x), idx}
+			}
 		}
 		return nil
 	case *ssa.Index:
@@ -1065,6 +1265,11 @@ func (e *Engine) eval(fr *frame, st *State, in ssa.Value) AV {
 		return e.val(fr, st, in.X)
 	case *ssa.Convert:
 		x := e.val(fr, st, in.X)
+		if e.TraceConv && x != nil {
+			if b, ok := in.Type().Underlying().(*types.Basic); ok && b.Info()&types.IsInteger != 0 {
+				st.event(Event{Kind: "conv", Args: []AV{x}, Pos: in.Pos(), Note: b.Name()})
+			}
+		}
 		if c, ok := x.(avConst); ok {
 			if b, ok := in.Type().Underlying().(*types.Basic); ok && b.Info()&types.IsString != 0 && c.v.Kind() == constant.Int {
 				if i, ok := constant.Int64Val(c.v); ok {
@@ -1119,10 +1324,12 @@ func (e *Engine) eval(fr *frame, st *State, in ssa.Value) AV {
 		return avPtr{e.NewObj("", in.Type()), ""}
 	case *ssa.MakeSlice:
 		n := -1
-		if c, ok := st.KnownInt(e.val(fr, st, in.Len)); ok && c == 0 {
-			n = 0
+		if c, ok := st.KnownInt(e.val(fr, st, in.Len)); ok && (c == 0 || (e.SymSlices && c > 0 && c <= 64)) {
+			n = int(c)
 		}
-		return avSlice{o: e.NewObj("", in.Type()), n: n}
+		o := e.NewObj("", in.Type())
+		o.of = e.val(fr, st, in.Len)
+		return avSlice{o: o, n: n}
 	case *ssa.Slice:
 		x := e.val(fr, st, in.X)
 		if p, ok := x.(avPtr); ok {
@@ -1263,6 +1470,25 @@ func (e *Engine) binop(st *State, op token.Token, x, y AV) AV {
 			}
 		}
 	}
+	// (s - c) op k  ==  s op (k + c)
+	if bx, ok := x.(avBin); ok && oky && (bx.op == token.ADD || bx.op == token.SUB) {
+		if c, ok := bx.y.(avConst); ok && c.v.Kind() == constant.Int && cy.v.Kind() == constant.Int {
+			inv := token.ADD
+			if bx.op == token.ADD {
+				inv = token.SUB
+			}
+			return e.binop(st, op, bx.x, avConst{constant.BinaryOp(cy.v, inv, c.v)})
+		}
+	}
+	if by, ok := y.(avBin); ok && okx && (by.op == token.ADD || by.op == token.SUB) {
+		if c, ok := by.y.(avConst); ok && c.v.Kind() == constant.Int && cx.v.Kind() == constant.Int {
+			inv := token.ADD
+			if by.op == token.ADD {
+				inv = token.SUB
+			}
+			return e.binop(st, op, avConst{constant.BinaryOp(cx.v, inv, c.v)}, by.x)
+		}
+	}
 	// integer symbol against constant: decided by facts?
 	sx, c, o2 := x, y, op
 	if okx {
@@ -1271,7 +1497,7 @@ func (e *Engine) binop(st *State, op token.Token, x, y AV) AV {
 	if sy, ok := sx.(avSym); ok {
 		if k, ok := c.(avConst); ok && k.v.Kind() == constant.Int {
 			if cv, exact := constant.Int64Val(k.v); exact {
-				if r, decided := st.decideInt(sy.id, o2, cv); decided {
+				if r, decided := st.decideInt(st.idOf(sy), o2, cv); decided {
 					return avConst{constant.MakeBool(r)}
 				}
 			}
@@ -1374,7 +1600,6 @@ func (s *State) fieldsOf(v AV) map[string]AV {
 	}
 	return nil
 }
-
 
 // ---------------------------------------------------------------- package initialisers
 
